@@ -30,6 +30,36 @@ def fmt_signature(body):
     return (re.findall(r'\["bstr", "(?:[^"\\]|\\.)*", "([0-9a-f]+)"\]', s), re.findall(r"Argument::<'_>::(new_\w+)", s))
 
 
+def ser_forms(fx):
+    """{VR: (form the element serializer writes, file:line of the arm)} -- shared with C23 (what is written is what must be read back)"""
+    vrs = fx.variants(C.VR_ENUM)
+    h = fx.hirfn(ELEM_SER)
+    ms = H.matches_over(h["body"], lambda t: t == C.VR_ENUM)
+    if len(ms) != 1:
+        raise facts.MissingAnchor("element serializer: match over VR")
+    tab, arms = H.enum_table(ms[0], vrs, C.VR_ENUM)
+    form_of_wrapper = {"AsStrings": "string", "AsPersonNames": "pn", "AsNumbers": "number", "AsTags": "tag", "InlineBinary": "binary"}
+    out = {}
+    for v in vrs:
+        if v == "SQ":
+            continue
+        b = arms[tab[v][0]][2] if tab[v] else None
+        entries = [x for x in H.walk(b) if H.kind(x) == "mcall" and x[3] == "serialize_entry"] if b is not None else []
+        form = "?"
+        if len(entries) == 1:
+            key = H.lit(entries[0][5][0])
+            wrapper = [c.split("::")[-3] for c, _ in H.calls(entries[0][5][1]) if c and c.startswith(f"<{SER}::value::") and c.endswith("From<&'a dicom_core::value::primitive::PrimitiveValue>>::from")]
+            if not wrapper:
+                wrapper = re.findall(r"value::(As\w+|InlineBinary)", json.dumps(entries[0][5][1]))
+            w = wrapper[0].split("<")[0] if wrapper else "?"
+            form = form_of_wrapper.get(w, "?" + w)
+            want_key = "InlineBinary" if form == "binary" else "Value"
+            if not key or key[1] != want_key:
+                form += f"(key={key})"
+        out[v] = (form, f"{h['loc']['f']}:{arms[tab[v][0]][3] if tab[v] else 0}")
+    return out
+
+
 def run(chk, tier):
     fx = facts.load("W")
     chk.analysed["facts"] = fx.meta
